@@ -143,6 +143,13 @@ impl<'a, T: IteTable<BddPtr<'a>>> BddBuilder<'a> for RobddBuilder<'a, T> {
 //%% end
 }
 
+/// environment after fixing the first k literals of a sequence, the last one innermost (sequential conditioning)
+pub open spec fn upd_lits(env: Env, lits: Seq<Literal>, k: int) -> Env
+    decreases k
+{
+    if k <= 0 { env } else { upd_lits(upd(env, lits[k - 1].lbl.0, lits[k - 1].pol), lits, k - 1) }
+}
+
 /// validity of the per-call conditioning memo: an entry keyed by a pointer (with its polarity) stores the
 /// conditioned version of the *regular* diagram behind that pointer
 pub open spec fn cond_entry_ok(k: BddPtr, v: BddPtr, o: VarOrder, lbl: VarLabel, value: bool) -> bool {
@@ -212,6 +219,49 @@ impl<'a, T: IteTable<BddPtr<'a>>> RobddBuilder<'a, T> {
                 }
             }
         }
+//%% end
+
+//%% extract src/builder/bdd/robdd.rs :: impl<'a, T: IteTable<'a, BddPtr<'a>> + Default> RobddBuilder<'a, T> :: fn cond_model_h
+//%% @props C01 C02 C05
+//%% @ret r
+//%% @rewrite 1 /for m in m\.assignment_iter\(\) \{/ => let lits__v = verif_assignment_vec(m);\n        for m__r in it: lits__v.iter() {\n            let m = *m__r;
+//%% @spec
+        requires
+            self.binv(), ordered(bdd, self.order_view()),
+            forall|i: int| 0 <= i < m.lits().len() ==> self.order_view().has((#[trigger] m.lits()[i]).lbl),
+        ensures
+            // conditioning on the literals of the model one after the other
+            forall|env: Env| #[trigger] tr(env) ==> ptr_sem(r, env) == ptr_sem(bdd, upd_lits(env, m.lits(), m.lits().len() as int)), // #SEM
+            ordered(r, self.order_view()),
+            canon(bdd) ==> canon(r), // #C02
+//%% @entry
+        let ghost bdd0 = bdd;
+        let ghost lits0 = m.lits();
+        proof { tr_all(); }
+//%% @loop 1 /^for m__r in it: lits__v\.iter\(\)$/
+            invariant
+                self.binv(), ordered(bdd, self.order_view()), lits__v@ == lits0,
+                forall|i: int| 0 <= i < lits0.len() ==> self.order_view().has((#[trigger] lits0[i]).lbl),
+                forall|env: Env| #![trigger tr(env)] #![trigger ptr_sem(bdd, env)] tr(env) ==> ptr_sem(bdd, env) == ptr_sem(bdd0, upd_lits(env, lits0, it.index@ as int)), // #SEM
+                canon(bdd0) ==> canon(bdd), // #C02
+//%% @loopbody 1
+            proof { tr_all(); }
+//%% end
+
+// R-scratch: `debug_assert!(bdd.is_scratch_cleared())` and `bdd.clear_scratch()` concern the per-node memo fields deleted by R-scratch
+//%% extract src/builder/bdd/robdd.rs :: impl<'a, T: IteTable<'a, BddPtr<'a>> + Default> RobddBuilder<'a, T> :: fn condition_model
+//%% @props C01 C02 C05
+//%% @ret r
+//%% @rewrite 1 /\n        debug_assert!\(bdd\.is_scratch_cleared\(\)\);/ => 
+//%% @rewrite 1 /\n        bdd\.clear_scratch\(\);/ => 
+//%% @spec
+        requires
+            self.binv(), ordered(bdd, self.order_view()),
+            forall|i: int| 0 <= i < m.lits().len() ==> self.order_view().has((#[trigger] m.lits()[i]).lbl),
+        ensures
+            forall|env: Env| #[trigger] tr(env) ==> ptr_sem(r, env) == ptr_sem(bdd, upd_lits(env, m.lits(), m.lits().len() as int)), // #SEM
+            ordered(r, self.order_view()),
+            canon(bdd) ==> canon(r), // #C02
 //%% end
 
 //%% extract src/builder/bdd/robdd.rs :: impl<'a, T: IteTable<'a, BddPtr<'a>> + Default> RobddBuilder<'a, T> :: fn smooth_helper
